@@ -98,16 +98,46 @@ def run_one(h, prefix, record_desc=False):
     return vsched.run_execution(h.body, tuple(prefix), record_desc=record_desc, **h.sched_kwargs)
 
 
-def _explore_subtree(h, root_prefix, bound, stats, cap, deadline):
+class Budget:
+    """Global execution cap shared by all workers (approximate: spent in batches)."""
+
+    def __init__(self, cap, deadline, counter=None):
+        self.cap = cap
+        self.deadline = deadline
+        self.counter = counter
+        self.local = 0
+        self.pending = 0
+        self.exhausted = False
+
+    def spend(self):
+        self.local += 1
+        self.pending += 1
+        if self.counter is None:
+            if self.local >= self.cap:
+                self.exhausted = True
+        elif self.pending >= 50:
+            with self.counter.get_lock():
+                self.counter.value += self.pending
+                total = self.counter.value
+            self.pending = 0
+            if total >= self.cap:
+                self.exhausted = True
+        if self.deadline and self.local % 20 == 0 and time.time() > self.deadline:
+            self.exhausted = True
+        return not self.exhausted
+
+
+def _explore_subtree(h, root_prefix, bound, stats, budget):
     """DFS below root_prefix (inclusive)."""
     stack = [bytes(root_prefix)]
     n = 0
     while stack:
-        if stats.executions >= cap or (deadline and time.time() > deadline):
+        if budget.exhausted:
             stats.capped = True
             break
         prefix = stack.pop()
         kids = _explore_one(h, prefix, bound, stats)
+        budget.spend()
         n += 1
         if n % 2000 == 0:
             gc.collect()
@@ -156,7 +186,7 @@ def _worker(item):
     if kind == "selftest":
         return ("selftest", j, selftest(h, seed=_G["seed"]))
     st = Stats()
-    _explore_subtree(h, prefix, bound, st, _G["cap"], _G["deadline"])
+    _explore_subtree(h, prefix, bound, st, _G["budget"])
     return ("stats", j, st)
 
 
@@ -173,10 +203,10 @@ def explore_many(jobs, *, workers=None, cap=2_000_000, seed=0, time_limit=None, 
                 msg = selftest(h, seed=seed)
                 if msg:
                     errors.append(msg)
-            _explore_subtree(h, b"", bound, stats[j], cap, deadline)
+            _explore_subtree(h, b"", bound, stats[j], Budget(cap, deadline))
         return stats, errors
-    _G.update(jobs=jobs, cap=max(1, cap // workers), deadline=deadline, seed=seed)
     ctx = multiprocessing.get_context("fork")
+    _G.update(jobs=jobs, budget=Budget(cap, deadline, ctx.Value("q", 0)), seed=seed)
     pool = ctx.Pool(workers, initializer=_init_worker, initargs=(ctx.Value("i", 0),))
     pin_cpu(0)
     try:
@@ -203,9 +233,6 @@ def explore_many(jobs, *, workers=None, cap=2_000_000, seed=0, time_limit=None, 
     finally:
         pool.terminate()
         pool.join()
-    for st in stats:
-        if st.executions >= cap:
-            st.capped = True
     return stats, errors
 
 
